@@ -1,7 +1,7 @@
 (* C02 — k-centers picks farthest points, never widens the radius, stops exactly on cue,
    the triangle-inequality shortcut changes nothing, and the result is a 2-approximation. *)
 From Coq Require Import List ZArith QArith.
-From EV Require Import KcGuardBase KcGuardGen KcArgs KcGuardProofs ClusterGen ClusterSkel ClusterGenProofs Cluster ClusterCase ClusterBase ClusterInv ClusterPam ClusterKC ClusterTop ClusterExample.
+From EV Require Import KcGuardBase KcGuardGen KcArgs KcGuardProofs ClusterGen ClusterSkel ClusterGenProofs Cluster ClusterCase ClusterBase ClusterInv ClusterPam ClusterKC ClusterTop ClusterExample ClusterVirt.
 Import ListNotations.
 
 (* starts from the first frame ... *)
@@ -110,6 +110,23 @@ Theorem c02_shortcut_same_result_warm : forall D, (forall f, D f f == 0) -> (for
 Proof. exact ti_same_result_warm. Qed.
 Print Assumptions c02_shortcut_same_result_warm.
 
+(* ... also when the supplied initial centres are NOT frames of the data (points of the metric space with an id
+   outside 0..n-1: centroids, centres of an earlier clustering), are repeated, or attract no frame: the shortcut
+   measures from the centre objects themselves (kc_update_ti reads D c (nth (lab x) ctrs); source: cc_dists =
+   _center_distances(distance_method, centers, new_center)), so only per-frame consistency is needed *)
+Theorem c02_shortcut_same_result_any_initial_centers : forall D nclu cutoff init n,
+  metric_sym D -> metric_tri D -> init <> [] ->
+  kcenters_warm D nclu cutoff true init n = kcenters_warm D nclu cutoff false init n.
+Proof. exact ti_same_result_warm_any. Qed.
+Print Assumptions c02_shortcut_same_result_any_initial_centers.
+
+(* and every frame then carries the label and the distance of a nearest centre object of the final list *)
+Theorem c02_any_initial_centers_labels_distances_consistent : forall D nclu cutoff ti init n,
+  ti_ok D ti -> init <> [] ->
+  Forall (frame_ok D (fst (kcenters_warm D nclu cutoff ti init n))) (snd (kcenters_warm D nclu cutoff ti init n)).
+Proof. exact warm_any_frames_ok. Qed.
+Print Assumptions c02_any_initial_centers_labels_distances_consistent.
+
 (* Gonzalez: the final radius is at most twice the radius of ANY set of at most that many centres *)
 Theorem c02_two_approx_cold : forall D, (forall f, D f f == 0) -> (forall c f, c <> f -> 0 < D c f) ->
   forall nclu cutoff ti n Sc rho, metric_sym D -> metric_tri D -> 0 <= cutoff -> (0 < n)%nat ->
@@ -141,3 +158,11 @@ Example c02_example :
   /\ st_show (kcenters_cold (Dline pos_id) None (2#1) true 9) = ([0; 8; 4]%nat, [0; 0; 0; 2; 2; 2; 1; 1; 1]%nat, [0; 1; 2; 1; 0; 1; 2; 1; 0]).
 Proof. vm_compute. split; reflexivity. Qed.
 Print Assumptions c02_example.
+
+(* a supplied centre that is not a frame: points 0..8 on a line are the data, the point with id 9 (position 9) is the
+   supplied centre; both settings of the shortcut give centres [9; 0; 4], the same labels and distances *)
+Example c02_example_non_frame_initial_center :
+  st_show (kcenters_warm (Dline pos_id) (Some 3%nat) 0 true [9%nat] 9) = ([9; 0; 4]%nat, [1; 1; 1; 2; 2; 2; 2; 0; 0]%nat, [0; 1; 2; 1; 0; 1; 2; 2; 1])
+  /\ kcenters_warm (Dline pos_id) (Some 3%nat) 0 false [9%nat] 9 = kcenters_warm (Dline pos_id) (Some 3%nat) 0 true [9%nat] 9.
+Proof. vm_compute. split; reflexivity. Qed.
+Print Assumptions c02_example_non_frame_initial_center.
